@@ -8,7 +8,7 @@ INFO = dict(
     rule="random graphs (2-5 probe nodes, all connection policies blocking x skip x LATEST/BUFFER x window 1-4, deterministic and normal delays incl. overruns, every third graph "
     "from a float32-exact tie stream with dyadic rates/delays) x 2 episodes (run() or reset()/step()); the C03 statements (exactly-once/in-order, FIFO, causal at clock resolution, "
     "consumption policy per connection kind, blocking wait, gap-free non-overlapping steps, window = last w consumed messages) are evaluated on every real record, and the record is "
-    "compared bit-exactly with the Lean machine. Non-trivial: the episode has >=1 exact tie (arrival == step start) or >=1 message that waited >=2 steps, and a window > 1",
+    "compared bit-exactly with the Lean machine; the same statements on 8 executions each of further graphs under perturbed thread schedules (incl. the exact-tie family). Non-trivial: the episode has >=1 exact tie (arrival == step start) or >=1 message that waited >=2 steps, and a window > 1",
     trusted=[
         "harness/extract.py for the kernels of push_ts_input / push_expected_nonblocking / push_expected_blocking / push_ts_max / push_selection",
         "monitors: harness/monitors_async.py (independent of the Lean machine); correspondence: harness/asynccheck.py",
@@ -40,4 +40,25 @@ def run(ctx):
                 res.traces += 1
         if len(res.samples) < 2:
             res.samples.append(dict(seed=t["args"]["seed"], spec=spec, stats=stats))
+    run_schedules(ctx, res, nsteps=8)
     return res
+
+
+def run_schedules(ctx, res, nsteps):
+    """the same statements on executions under perturbed thread schedules (gates of rex/_verif.py): the exact-tie family
+    (two outputs with identical timestamps arriving exactly at a step start of a non-blocking, non-skipped receiver) and
+    random graphs; a policy that only holds when the receiver happens to see all timestamps early fails here."""
+    tasks = [dict(fn="tasks_rt:async_schedules", args=dict(seed=ctx.rng.randrange(1 << 30), nsteps=nsteps, family="tie_advance"), timeout=400) for _ in range(ctx.n(3, 8))]
+    tasks += [dict(fn="tasks_rt:async_schedules", args=dict(seed=ctx.rng.randrange(1 << 30), nsteps=nsteps, tie=(i % 2 == 1)), timeout=400) for i in range(ctx.n(2, 10))]
+    for t, r in ac.pool_cases(tasks, res, timeout=400):
+        spec = r["spec"]
+        for v in r["variants"]:
+            res.evaluations += 1
+            res.count("schedule_variants")
+            fails, stats = mon.c03_monitor(spec, v["record"], r["cfg"], nsteps)
+            res.count("ties_under_schedules", stats["ties"])
+            for key, desc in fails[:2]:
+                res.fail(key, f"seed={t['args']['seed']} family={t['args'].get('family', 'random')} schedule={v['variant']}: {desc}",
+                         dict(task=t, spec=spec, variant=v["variant"], all=[d for _, d in fails[:10]]))
+            if stats["ties"] > 0 and v["variant"]["policy"] != "none":
+                res.nontriv(dict(seed=t["args"]["seed"], variant=v["variant"]))
